@@ -1,0 +1,27 @@
+//go:build verif
+
+// Contracts for package core/signature (properties C14, C39), read by /verif/gocv.
+package signature
+
+// sigValid: signature bytes sig parse to an object that verifies under key over data
+//@ spec sigValid(key keypair.PublicKey, data []byte, sig []byte) bool = sigVerify(ref(key), bytes(data), sigParse(bytes(sig)))
+
+//@ func Verify
+//@   property C39
+//@   ensures result == nil ==> sigValid(pubKey, data, signature)
+
+//@ func VerifyMultiSignature
+//@   property C14, C39
+//@   -- ghost witness: w[a] is the index of the key that verified signature a
+//@   ghost var w ArrU64U64
+//@   set after "mask[j] = true" : w := upd(w, i, j)
+//@   ensures result == nil ==> len(sigs) >= m
+//@   ensures result == nil ==> forall a int :: 0 <= a && a < m ==> w[a] < uint64(len(keys)) && sigValid(keys[w[a]], data, sigs[a])
+//@   ensures result == nil ==> forall a int, b int :: 0 <= a && a < b && b < m ==> w[a] != w[b]
+//@   loop 1 invariant forall a int :: 0 <= a && a < i ==> w[a] < uint64(len(keys)) && mask[w[a]] && sigValid(keys[w[a]], data, sigs[a])
+//@   loop 1 invariant forall a int, b int :: 0 <= a && a < b && b < i ==> w[a] != w[b]
+//@   loop 1 decreases m - i
+//@   loop 2 invariant !valid
+//@   loop 2 invariant forall a int :: 0 <= a && a < i ==> w[a] < uint64(len(keys)) && mask[w[a]] && sigValid(keys[w[a]], data, sigs[a])
+//@   loop 2 invariant forall a int, b int :: 0 <= a && a < b && b < i ==> w[a] != w[b]
+//@   loop 2 decreases n - j
